@@ -13,3 +13,4 @@ driver("drv_fileio", variant="asan", cflags="-fno-access-control", ldflags="-Wl,
 driver("drv_subprocess", variant="plain", ldflags="-Wl,--wrap=pipe -Wl,--wrap=waitpid -Wl,--wrap=poll -Wl,--wrap=read -Wl,--wrap=write -Wl,--wrap=close")
 driver("verif_child", variant="plain", lib=False)
 driver("drv_expect", variant="plain")
+driver("drv_mathvec", variant="asan")
